@@ -14,15 +14,16 @@ import (
 // zzObj: a user object behind the generic object front (NewBasicObject): counts invocations of its
 // own method (any action not handled by the generic object) and of its termination hook.
 type zzObj struct {
-	gate       chan struct{} // when set, the first message waits here (a slow method)
-	gated      int32
-	calls      int32
-	terminated int32
-	id         uint32
-	live       bool
-	front      BasicObject
-	seenMu     sync.Mutex
-	seen       []*net.Message // every message handed to the user object, as it was handed over
+	gate        chan struct{} // when set, the first message waits here (a slow method)
+	gated       int32
+	calls       int32
+	terminated  int32
+	id          uint32
+	live        bool
+	front       BasicObject
+	seenMu      sync.Mutex
+	seen        []*net.Message // every message handed to the user object, as it was handed over
+	onTerminate func()         // what the termination hook does besides counting
 }
 
 func (o *zzObj) Receive(m *net.Message, from Channel) error {
@@ -39,7 +40,12 @@ func (o *zzObj) Receive(m *net.Message, from Channel) error {
 	return nil
 }
 func (o *zzObj) Activate(a Activation) error { return nil }
-func (o *zzObj) OnTerminate()                { atomic.AddInt32(&o.terminated, 1) }
+func (o *zzObj) OnTerminate() {
+	atomic.AddInt32(&o.terminated, 1)
+	if o.onTerminate != nil {
+		o.onTerminate()
+	}
+}
 
 func newZZObj() *zzObj {
 	o := &zzObj{}
@@ -445,4 +451,49 @@ func C16MainObjectAndReAdd() {
 		}
 	}
 	sym.Reach("main-and-readd-done")
+}
+
+// C16CascadeRemoval: a parent object whose termination hook removes its child from the same service
+// (an owner cleaning up what it created): the parent is terminated remotely or removed locally; both
+// hooks run exactly once, the request is answered, and the service's other objects keep answering.
+func C16CascadeRemoval() {
+	srv, _, _, a := zzAuthedServer()
+	root := newZZObj()
+	service, err := srv.NewService("objects", root.front)
+	sym.Assert(err == nil, "service-registered")
+	if err != nil {
+		return
+	}
+	sid := service.ServiceID()
+	parent, child := newZZObj(), newZZObj()
+	pid, err := service.Add(parent.front)
+	sym.Assert(err == nil, "add-ok")
+	cid, err := service.Add(child.front)
+	sym.Assert(err == nil, "add-ok")
+	var childRemoveErr error
+	parent.onTerminate = func() { childRemoveErr = service.Remove(cid) }
+	if sym.Bool("removed-locally") {
+		done := make(chan error, 1)
+		go func() { done <- service.Remove(pid) }()
+		sym.Quiesce()
+		select {
+		case err := <-done:
+			sym.Assert(err == nil, "cascade/remove-failed")
+		default:
+			sym.Fail("cascade/remove-never-returns")
+			return
+		}
+	} else {
+		out := zzRoundTrip(a, zzFrame(net.Call, sid, pid, 3, 60, zzLE32(pid)))
+		sym.Assert(len(out) == 1, "cascade/terminate-not-answered")
+	}
+	sym.Quiesce()
+	sym.Assert(atomic.LoadInt32(&parent.terminated) == 1, "cascade/parent-hook-exactly-once")
+	sym.Assert(atomic.LoadInt32(&child.terminated) == 1, "cascade/child-hook-exactly-once")
+	sym.Assert(childRemoveErr == nil, "cascade/child-removal-failed")
+	out := zzRoundTrip(a, zzFrame(net.Call, sid, 1, 1000, 61, nil))
+	sym.Assert(len(out) == 1 && out[0].Header.Type == net.Reply, "cascade/other-object-affected")
+	out = zzRoundTrip(a, zzFrame(net.Call, sid, cid, 1000, 62, nil))
+	sym.Assert(len(out) == 1 && out[0].Header.Type == net.Error, "cascade/removed-child-still-answers")
+	sym.Reach("cascade-done")
 }
